@@ -35,7 +35,7 @@ na = [{"property_id": p, "reason": NA.get(p, "check not built yet in this round;
 goenv = "GOFLAGS=-mod=mod GOPROXY=off GOSUMDB=off GOTOOLCHAIN=local"
 man = {
     "version": 1,
-    "setup_cmd": "cd /verif/harness && %s go build -tags verif -o bin/harness . && cd /verif && python3 lib/gen_traceprops.py" % goenv,
+    "setup_cmd": "cd /verif/harness && %s go build -buildvcs=false -tags verif -o bin/harness . && cd /verif && python3 lib/gen_traceprops.py" % goenv,
     "hooks": {
         "guard": "verif",
         "enable": "go build -tags verif (harness module /verif/harness with replace directives onto /repo/{api,types,x/data,x/ecocredit,x/intertx})",
